@@ -71,7 +71,15 @@ func astLoops(body *ast.BlockStmt) ([]*ast.LabeledStmt, map[*ast.LabeledStmt][]s
 				if !ok || len(b.List) == 0 {
 					continue
 				}
-				if es, ok := b.List[len(b.List)-1].(*ast.ExprStmt); ok {
+				last := b.List[len(b.List)-1]
+				for { // the add call may carry the label that the alternatives before it jump to
+					l, ok := last.(*ast.LabeledStmt)
+					if !ok {
+						break
+					}
+					last = l.Stmt
+				}
+				if es, ok := last.(*ast.ExprStmt); ok {
 					if call, ok := es.X.(*ast.CallExpr); ok {
 						if id, ok := call.Fun.(*ast.Ident); ok && id.Name == "add" && len(call.Args) > 0 {
 							if nm := ruleIdentName(call.Args[0]); nm != "" && b.End() > ls.End() {
